@@ -40,6 +40,12 @@ func main() {
 			tier = os.Args[2]
 		}
 		os.Exit(clifam.Check(tier))
+	case "C08", "C09":
+		tier := "quick"
+		if len(os.Args) > 2 {
+			tier = os.Args[2]
+		}
+		os.Exit(loadfam.CheckMerge(os.Args[1], tier))
 	case "C15":
 		tier := "quick"
 		if len(os.Args) > 2 {
